@@ -99,11 +99,10 @@ class Celestial(Dynamics, metaclass=ABCMeta):
             events.extend(scheduled_events)
             for event in scheduled_events:
                 # Grab finite thrust events that should already be active
-                if (
-                    isinstance(event, ScheduledFiniteThrust)
-                    and event.start_time < initial_time < event.end_time
-                ):
-                    self.finite_thrust = event.getStateChangeCallback(initial_time)
+                if isinstance(event, ScheduledFiniteThrust):
+                    event.thrusting = event.start_time < initial_time < event.end_time
+                    if event.thrusting:
+                        self.finite_thrust = event.getStateChangeCallback(initial_time)
 
         return events
 
